@@ -46,15 +46,17 @@ def compare_case(ctx, case, exp):
     exp_lpt = [list(x) for x in (exp["lpt"] or [])]
     exp_layout = exp["layout"] or []
     ok = True
+    unit = case.get("unit", 1)          # huge loads: TLC evaluated the assignment on sizes / unit (see mk_huge)
+    exp_lpt = [[a * unit, r] for a, r in exp_lpt]
     for which in COPIES:
         for rank in case.get("ranks", [0]):
-            real = adapter.real_assignment(which, numels, itemsize, G, rank)
+            real = adapter.real_assignment(which, numels, itemsize, G, rank, lpt_only=unit != 1)
             if real["lpt"] != exp_lpt:
                 ok = False
                 ctx.violation(f"{which}: assignment differs from spec on {case}: expected {exp_lpt}, observed {real['lpt']}",
                               {"kind": "assign_oracle", "copy": which, "clause": "lpt"}, {"case": case})
                 continue
-            if not numels:
+            if not numels or unit != 1:
                 continue
             probs = []
             if real["total"] != exp["seg"] * G:
@@ -79,6 +81,19 @@ def compare_case(ctx, case, exp):
 def mk_case(numels, itemsize, G, ranks=None):
     return {"numels": list(numels), "itemsize": itemsize, "G": G, "n": len(numels),
             "sizes": [n * itemsize for n in numels], "ranks": ranks or [0]}
+
+
+UNIT = 1 << 20
+
+
+def mk_huge(rng):
+    """Loads of several GiB per rank (TLC integers are 32-bit): every size is a multiple of 64 * 2^20 bytes, TLC evaluates the
+    assignment on sizes / 2^20 - the rule only compares sums of sizes, so the assignment is the same - and the harness scales back."""
+    k = rng.randint(8, 48)
+    mult = [rng.choice([1, 1, 2, 3, 4, 4, 8]) for _ in range(k)]            # x 64 MiB
+    numels = [m * 16 * UNIT for m in mult]                                      # fp32: bytes = m * 64 * 2^20
+    G = rng.choice([2, 2, 3, 4, 8])
+    return {"numels": numels, "itemsize": 4, "G": G, "n": k, "sizes": [m * 64 for m in mult], "ranks": [0], "unit": UNIT}
 
 
 def run(ctx):
@@ -108,6 +123,13 @@ def run(ctx):
         numels = [rng.choice([1, 2, 15, 16, 17, 31, 32, 33, 64, 100, 128, 129, 1000, 4096]) for _ in range(k)]
         G = rng.randint(1, 16)
         cases.append(mk_case(numels, rng.choice([2, 4]), G, ranks=[rng.randrange(G)]))
+    # many blocks per rank (hundreds of views inside one segment) and loads beyond 2^31 bytes per rank
+    for _ in range(3 if quick else 20):
+        k = rng.randint(257, 700)
+        G = rng.choice([1, 1, 2])
+        cases.append(mk_case([rng.choice([1, 16, 16, 17, 32]) for _ in range(k)], rng.choice([2, 4]), G, ranks=[rng.randrange(G)]))
+    for _ in range(40 if quick else 600):
+        cases.append(mk_huge(rng))
     exp = oracle_eval(cases)
     nontrivial = 0
     for c, e in zip(cases, exp):
@@ -120,11 +142,12 @@ def run(ctx):
     ctx.put("exhaustive", True)
     ctx.put("rule", f"MC: every size sequence of length<={n} over {{1,64,65,128,192,500}} bytes x group size 1..{g}; oracle: every "
                     f"numel sequence of length<={L} over {numel_set} (fp32) x G in 1..4 ({n_exh} cases) + seeded random (length<=12, G<=16, "
-                    f"2- and 4-byte communication dtypes), each on all three copies, comparing (aligned size, rank) per block and "
+                    f"2- and 4-byte communication dtypes; 257-700 blocks on one or two ranks; loads of several GiB per rank as plain integers), each on all three copies, comparing (aligned size, rank) per block and "
                     f"(byte offset, bytes, dtype, shape, storage) per buffer view; non-trivial = G>1 and more than one block")
     ctx.sample({"case": cases[n_exh - 1], "expected": exp[n_exh - 1]})
     ctx.sample({"case": cases[-1], "expected_lpt": exp[-1]["lpt"]})
     ctx.assume("the three copies are exercised through a stub `self` carrying only the attributes the methods read")
+    ctx.assume("loads >= 2^31 bytes: TLC evaluates the assignment on sizes divided by 2^20 (all sizes multiples of 64*2^20; the rule compares sums only)")
     ctx.assume("optimizer-state placement (state only on the owner) is checked in the simulated-rank runs of C06")
 
 
